@@ -573,22 +573,28 @@ def _run_agrees(b):
         _run_mtime = (st0.st_atime_ns, st0.st_mtime_ns)
     os.utime(_real_path, ns=_run_mtime)
     os.environ['FLIPJUMP_NO_NATIVE'] = '1'     # python fast loop: the case watchdog can always stop it
-    dev = _StopDevice()
     try:
-        try:
-            with kernel.short_timer(0.2):
-                st = fjm_run.run(_real_path, io_device=dev)
-            out = 'ran'
-        except kernel.ShortStop:
-            out = 'ran'
-    except FlipJumpReadFjmException:
-        out = 'read-error'
-    except FlipJumpException:
-        out = 'fj-error'
-    except kernel.WatchdogTimeout:
-        out = 'ran'
-    except BaseException as e:  # noqa
-        out = 'other:' + type(e).__name__
+        # the short wall limit only exists to stop programs that run on; when it fires on a file that must be rejected
+        # the machine may simply have been slow to LOAD it - ask again with a generous limit before believing "ran"
+        for limit in (0.2, 8.0):
+            dev = _StopDevice()
+            try:
+                try:
+                    with kernel.short_timer(limit):
+                        st = fjm_run.run(_real_path, io_device=dev)
+                    out = 'ran'
+                except kernel.ShortStop:
+                    out = 'stopped-by-timer'
+            except FlipJumpReadFjmException:
+                out = 'read-error'
+            except FlipJumpException:
+                out = 'fj-error'
+            except kernel.WatchdogTimeout:
+                raise
+            except BaseException as e:  # noqa
+                out = 'other:' + type(e).__name__
+            if not (verdict == 'reject' and out == 'stopped-by-timer'):
+                break
     finally:
         os.environ.pop('FLIPJUMP_NO_NATIVE', None)
     if verdict == 'reject' and out != 'read-error':
